@@ -158,12 +158,11 @@ def run(rep: Report, tier: str) -> None:
     # ---------------------------------------------------------------- C08.d
     rd = rep.rule("C08.d", "replay in chronological order, in-transactions first in a stable sort", floor=2)
     it = bm.replay_iterable()
-    sorted_ok = it[0] == "xcall" and it[1] == "sorted" and not any(k == "reverse" for k, _ in it[4]) and _sorted_by_timestamp(m, fi, bm.replay)
+    from .c07 import replay_order
+
+    sorted_ok, first_src = replay_order(m, fi, bm.replay)
     rep.check(sorted_ok, rd, fi.module, fi.qualname, "replay list = sorted(..., key=timestamp)", "the replay does not iterate sorted(<all transactions>, key=<timestamp>): overdrafts must be judged in chronological, not sheet, order", loc(bm.replay))
-    first_in = False
-    if it[0] == "xcall" and it[3] and it[3][0][0] == "concat":
-        head = it[3][0][1][0]
-        first_in = any(s[0] == "fld" and s[2] == "InputData.__unfiltered_in_transaction_set" for s in subterms(head))
+    first_in = first_src is not None and unparse(first_src).endswith("unfiltered_in_transaction_set")
     rep.check(first_in, rd, fi.module, fi.qualname, "in-transactions come first in the list handed to the stable sort", "the concatenation handed to sorted() does not start with the in-transactions: a buy and a sell at the same instant would be replayed debit-first and rejected", loc(bm.replay))
 
     # ---------------------------------------------------------------- C08.e
